@@ -28,6 +28,9 @@ def run(ctx):
     if not behs:
         raise vlib.Broken("no behaviours")
     replay_family(ctx, "method", behs, classify=classify)
+    # a type is addressed by package AND name: three packages define a same-named unexported struct with a same-named method (Pkg.tla)
+    g = ctx.tlc("Pkg", "Gen_Pkg.cfg", workers=1, timeout=600, constants={"MaxOps": 4 if q else 5, "K": '{"method"}'}, tag="same-named struct types in 3 packages: all histories")
+    replay_family(ctx, "pkg", ctx.behaviours(g))
     ctx.cov["exhaustive"] = True
     ctx.cov["rule"] = ("every history of Mock(apply|return)/Reset/CallAll to depth 3/4 over 11 (type, method) targets and seeded random "
                        "length-9 histories with 2 builders; CallAll calls every method of every type (and the method promoted through an "
